@@ -2,7 +2,7 @@
   T-writer, part 1: byte-level facts.
   * `leVal (leN k v) = v % 256^k`, `beVal (be64 v) = v`.
   * `Meta.parse (out ++ Meta.encode m) = .ok m` for version-2 trailers.
-  * block writers: `BW.Reach` (writers obtained from `BW.new` by successful inserts) and what
+  * block writers: `BW.Made` (writers obtained from `BW.new` by successful inserts) and what
     holds of them; `BW.insert` succeeds when the key is larger than the last key.
   * `Lay cd log out`: the log offsets are the prefix sums of the block sizes and `out` is the
     concatenation of the blocks; reading a block back with `loadBlock`.
@@ -12,6 +12,8 @@ import Grenad.Model.Abstract
 namespace Grenad
 
 /-! ### Fixed-width integers -/
+
+namespace WT
 
 theorem leN_length (k v : Nat) : (leN k v).length = k := by
   induction k generalizing v with
@@ -52,10 +54,10 @@ theorem beVal_be64 {v : Nat} (h : v < 2 ^ 64) : beVal (be64 v) = v := by
 
 /-! ### Trailer -/
 
-theorem Meta.encode_v2_length (m : Meta.Meta) (h : m.version = 2) : (Meta.encode m).length = 22 := by
+theorem meta_encode_v2_length (m : Meta.Meta) (h : m.version = 2) : (Meta.encode m).length = 22 := by
   simp [Meta.encode, h]
 
-theorem Meta.parse_encode_v2 (out : Bytes) (m : Meta.Meta) (hv : m.version = 2)
+theorem meta_parse_encode_v2 (out : Bytes) (m : Meta.Meta) (hv : m.version = 2)
     (hroot : m.root < 2 ^ 64) (hcodec : m.codec ≤ 5) (hcount : m.count < 2 ^ 64)
     (hlevels : m.levels ≤ 255) :
     Meta.parse (out ++ Meta.encode m) = .ok m := by
@@ -147,6 +149,10 @@ theorem getLast?_map_fst_eq_lastKey {es : List Entry} (h : es ≠ []) :
   | none => simp at h'; exact absurd h' h
   | some y => simp [lastKey, h']
 
+end WT
+
+open WT
+
 theorem StrictAsc.concat {es : List Entry} {k v : Bytes} (h : StrictAsc es)
     (hl : ∀ lk, es.getLast?.map (·.1) = some lk → lk < k) : StrictAsc (es ++ [(k, v)]) := by
   unfold StrictAsc at *
@@ -170,11 +176,11 @@ theorem StrictAsc.concat {es : List Entry} {k v : Bytes} (h : StrictAsc es)
 namespace BW
 
 /-- Writers obtained from `BW.new iv` by successful inserts. -/
-inductive Reach (iv : Nat) : BW → Prop
-  | new : Reach iv (BW.new iv)
-  | insert {w w' : BW} {k v : Bytes} : Reach iv w → w.insert k v = .ok w' → Reach iv w'
+inductive Made (iv : Nat) : BW → Prop
+  | new : Made iv (BW.new iv)
+  | insert {w w' : BW} {k v : Bytes} : Made iv w → w.insert k v = .ok w' → Made iv w'
 
-theorem insert_spec {w w' : BW} {k v : Bytes} (h : w.insert k v = .ok w') :
+theorem wt_insert_spec {w w' : BW} {k v : Bytes} (h : w.insert k v = .ok w') :
     w'.items = w.items ++ [(k, v)] ∧ w'.lastKey = some k ∧ w'.interval = w.interval ∧
     (∀ lk, w.lastKey = some lk → lk < k) ∧ k.length ≤ u32Max ∧ v.length ≤ u32Max ∧
     (∀ t, w.offsets = 0 :: t → ∃ t', w'.offsets = 0 :: t') := by
@@ -200,7 +206,7 @@ theorem insert_spec {w w' : BW} {k v : Bytes} (h : w.insert k v = .ok w') :
     refine ⟨rfl, rfl, rfl, ?_, by omega, by omega, hoffs⟩
     intro lk' h'; rw [hlk] at h'; cases h'
 
-theorem insert_ok {w : BW} {k v : Bytes} (hk : k.length ≤ u32Max) (hv : v.length ≤ u32Max)
+theorem wt_insert_ok {w : BW} {k v : Bytes} (hk : k.length ≤ u32Max) (hv : v.length ≤ u32Max)
     (hord : ∀ lk, w.lastKey = some lk → lk < k) : ∃ w', w.insert k v = .ok w' := by
   unfold BW.insert
   rw [if_neg (by omega), if_neg (by omega)]
@@ -211,40 +217,37 @@ theorem insert_ok {w : BW} {k v : Bytes} (hk : k.length ≤ u32Max) (hv : v.leng
     exact ⟨_, rfl⟩
   · exact ⟨_, rfl⟩
 
-theorem Reach.inv {iv : Nat} {w : BW} (h : Reach iv w) :
+theorem Made.inv {iv : Nat} {w : BW} (h : Made iv w) :
     w.interval = iv ∧ w.lastKey = w.items.getLast?.map (·.1) ∧ (∃ t, w.offsets = 0 :: t) ∧
     StrictAsc w.items := by
   induction h with
   | new => exact ⟨rfl, rfl, ⟨[], rfl⟩, List.Pairwise.nil⟩
   | insert hr hi ih =>
     obtain ⟨i1, i2, ⟨t, i3⟩, i4⟩ := ih
-    obtain ⟨s1, s2, s3, s4, -, -, s7⟩ := insert_spec hi
+    obtain ⟨s1, s2, s3, s4, -, -, s7⟩ := wt_insert_spec hi
     refine ⟨by rw [s3, i1], ?_, s7 t i3, ?_⟩
     · rw [s1, s2]; simp
     · rw [s1]; exact i4.concat (by rw [← i2]; exact s4)
 
-theorem Reach.strictAsc {iv : Nat} {w : BW} (h : Reach iv w) : StrictAsc w.items := h.inv.2.2.2
+theorem Made.strictAsc {iv : Nat} {w : BW} (h : Made iv w) : StrictAsc w.items := h.inv.2.2.2
 
-theorem Reach.lastKey_eq {iv : Nat} {w : BW} (h : Reach iv w) :
+theorem Made.lastKey_eq {iv : Nat} {w : BW} (h : Made iv w) :
     w.lastKey = w.items.getLast?.map (·.1) := h.inv.2.1
 
-theorem Reach.lastKey_none {iv : Nat} {w : BW} (h : Reach iv w) (hn : w.lastKey = none) :
+theorem Made.lastKey_none {iv : Nat} {w : BW} (h : Made iv w) (hn : w.lastKey = none) :
     w.items = [] := by
   rw [h.lastKey_eq] at hn; simpa using hn
 
-theorem Reach.lastKey_some {iv : Nat} {w : BW} {lk : Bytes} (h : Reach iv w)
+theorem Made.lastKey_some {iv : Nat} {w : BW} {lk : Bytes} (h : Made iv w)
     (hs : w.lastKey = some lk) : w.items ≠ [] ∧ lk = Grenad.lastKey w.items := by
   rw [h.lastKey_eq] at hs
   have hne : w.items ≠ [] := by intro h0; rw [h0] at hs; simp at hs
   rw [getLast?_map_fst_eq_lastKey hne] at hs
   exact ⟨hne, by cases hs; rfl⟩
 
-theorem Reach.reset {iv : Nat} {w : BW} (h : Reach iv w) : w.reset = BW.new iv := by
+theorem Made.reset {iv : Nat} {w : BW} (h : Made iv w) : w.reset = BW.new iv := by
   obtain ⟨i1, -, ⟨t, i3⟩, -⟩ := h.inv
   simp [BW.reset, BW.new, i1, i3]
-
-theorem new_items (iv : Nat) : (BW.new iv).items = [] := rfl
-theorem new_lastKey (iv : Nat) : (BW.new iv).lastKey = none := rfl
 
 end BW
 
